@@ -267,6 +267,79 @@ def smc_case(task):
     return None, part
 
 
+def path_task(task):
+    """Weights along the retained path of the real ConditionalSMCSampler on larger random trees (up to 8 points):
+    log_w_t must equal [log_p + log_pdf](T_t) - [log_p + log_pdf](T_{t-1}) - log_q_t with the densities recomputed on
+    the materialised trees (permutation density from the reference order count)."""
+    from vlib.harness import Partial, describe_exception
+    from phyclone.smc.samplers import ConditionalSMCSampler
+    from phyclone.smc.swarm import TreeHolder
+    from phyclone.smc.utils import RootPermutationDistribution
+    from phyclone.tree import FSCRPDistribution, TreeJointDistribution
+    from phyclone.utils.dev import clear_proposal_dist_caches
+    from checks.c01 import random_placement_forest
+
+    part = Partial()
+    for c in range(task["count"]):
+        rng = np.random.default_rng([task["seed"], task["shard"], c, 88])
+        n = int(rng.integers(3, 9))
+        D, G = 1 + c % 2, 5
+        rho = [0.0, 0.1][c % 2]
+        kname = KERNELS[c % 3]
+        perm = bool((c // 3) % 2 == 0)
+        alpha = float(np.exp(rng.normal() * 0.7))
+        data = gen.make_data(rng, n, D, G, kind="moderate", outlier_prior=0.2 if rho > 0 else 0.0)
+        f = random_placement_forest(rng, n, 0.15 if rho > 0 else 0.0)
+        case = {"seed": task["seed"], "shard": task["shard"], "case": c, "kernel": kname, "rho": rho, "perm": perm, "n": n,
+                "forest": f.describe(), "alpha": alpha}
+        try:
+            clear_proposal_dist_caches()
+            td = TreeJointDistribution(FSCRPDistribution(alpha))
+            g = np.random.default_rng(c)
+            kernel = make_kernel(kname, td, g, rho, perm)
+            tree, _ = gen.build_tree(f, data, child_order_rng=rng)
+            sigma = RootPermutationDistribution.sample(tree, g)
+            order = [dp.idx for dp in sigma]
+            if not refmodel.is_compatible_order(f, order):
+                continue  # C09's business
+            smp = ConditionalSMCSampler(tree, sigma, kernel, num_particles=2, resample_threshold=0.5)
+            path = smp.constrained_path
+            prev = 0.0
+            prev_tree = None
+            prev_particle = None
+            for t, p in enumerate(path[1:], start=1):
+                T = p.tree
+                ft, _names = gen.tree_to_forest(T)
+                cur = float(td.log_p(T)) + (-refmodel.count_orders(ft) if perm else 0.0)
+                prop = kernel.get_proposal_distribution(sigma[t - 1], prev_particle, prev_tree)
+                lq = float(prop.log_p(TreeHolder(T, td, kernel.perm_dist)))
+                expect = cur - prev - lq
+                part.count("evaluations")
+                part.count("retained_path_weights_checked")
+                dev = abs(float(p.log_w) - expect)
+                part.maxi("max_retained_weight_dev", dev)
+                if not dev <= 1e-8 * (1 + abs(expect)):
+                    part.violation("incremental weight on the retained path is not target(t)/target(t-1)/proposal "
+                                   "(densities recomputed on the materialised trees%s)"
+                                   % (", permutation density = 1/#compatible orders" if perm else ""),
+                                   dict(case, generation=t, log_w=float(p.log_w), expected=expect,
+                                        tree=gen.key_str(gen.tree_key(T))))
+                    break
+                prev, prev_tree, prev_particle = cur, T, p
+            part.see("path|%s|%s|%s|%s" % (kname, rho, perm, gen.key_str(f.key())))
+            if len(part.samples) < 1:
+                part.sample(dict(case, order=order))
+        except Exception as e:
+            et, where, msg = describe_exception(e)
+            if where == "outside-repo":
+                import traceback
+                part.inconc("harness error: " + traceback.format_exc()[-800:])
+            else:
+                part.violation("%s in %s while building the retained path (%s kernel)" % (et, where, kname),
+                               dict(case, msg=msg))
+    return None, part
+
+
 def path_structure(nmax):
     """Reference-only sanity: along a data order, placement paths and compatible forests are in bijection."""
     bad = []
@@ -336,5 +409,9 @@ def run(ctx):
                         stasks.append({"kernel": kname, "rho": rho, "perm": perm, "n": n, "N": N, "D": 1, "G": 4,
                                        "alpha": 0.8, "seed": ctx.seed, "order": order})
     ctx.map("checks.c08", "smc_case", stasks, timeout=1500)
+    ptasks = [{"seed": ctx.seed, "shard": i, "count": 12 if ctx.tier == "quick" else 150} for i in range(16)]
+    ctx.map("checks.c08", "path_task", ptasks, timeout=1500)
+    if ctx.counters.get("retained_path_weights_checked", 0) < 200:
+        ctx.inconc("fewer than 200 retained-path weights checked")
     if ctx.counters.get("paths", 0) < 1000:
         ctx.inconc("fewer than 1000 replayed paths")
